@@ -307,6 +307,9 @@ def run(prop, seed, budget, ctx):
                                      "cold_start": list(f), "k_ok": True, "points": sorted({"/".join(p) for _, _, p in since}),
                                      "why": ["stale-observation-in-a-random-history"]})
         if len(since) > 2: distinct.add(("history", h, seed))
+    # histories on discriminated unions, against twin classes that only see the final configuration (a cold start in a forked child cannot
+    # tell state kept inside the user's own objects - a mapping given to discriminator(...) - from configuration)
+    df, dn = discr_histories(rnd, seed, budget, hist, distinct); failures += df; evaluations += dn
     # restore the defaults for whoever runs next in this process
     for i in range(n_ops): baseline(ops_fn, i)
     reset()
@@ -318,6 +321,51 @@ def run(prop, seed, budget, ctx):
                     "non-trivial = the mutation was applied after the observation had been cached under the opposite value",
             "samples": samples, "histograms": dict(hist), "correspondence": {"wiring_points_exercised": sorted({k[6:] for k in hist if k.startswith("point:")})},
             "failures": failures}
+
+
+def discr_histories(rnd, seed, budget, hist, distinct):
+    """observe, change what an implicit discriminator key is derived from (type_name of an alternative, the settings' default type name, the
+    fields of the class), observe again: the second observation is the one twin classes give that never saw the first configuration"""
+    from common import build_module
+    from apischema import deserialize, serialize, type_name, settings
+    from apischema.json_schema import deserialization_schema
+    src = ["from dataclasses import dataclass, field", "from typing import *", "from apischema import discriminator", ""]
+    n = 10 * budget; specs = []
+    for i in range(n):
+        mapping = rnd.choice(["{'dog': PFX_Dog}", "{'dog': PFX_Dog, 'liz': PFX_Liz}", None, "[('dog', PFX_Dog)]"])
+        for pfx in (f"D{i}", f"T{i}"):
+            src += ["@dataclass", f"class {pfx}_Cat:", "    a: int = 0", "", "@dataclass", f"class {pfx}_Dog:", "    b: int = 0", "", "@dataclass", f"class {pfx}_Liz:", "    c: int = 0", "",
+                    f"{pfx}_U = Annotated[Union[{pfx}_Cat, {pfx}_Dog, {pfx}_Liz], discriminator('type'" + (", " + mapping.replace("PFX", pfx).replace("[(", "dict([(").replace(")]", ")])") if mapping else "") + ")]", ""]
+        specs.append((i, mapping))
+    mod = build_module(src, f"c09discr{seed}"); ns = dict(vars(mod))
+    failures, count = [], 0
+    def observe(pfx, names):
+        U, Cat = ns[pfx + "_U"], ns[pfx + "_Cat"]
+        out = {}
+        out["schema"] = outcome(lambda: json.dumps(deserialization_schema(U), sort_keys=True))
+        out["serialize"] = outcome(lambda: serialize(U, Cat(1)))
+        out["deserialize(current name)"] = outcome(lambda: deserialize(U, {"type": names["Cat"], "a": 2}))
+        out["deserialize(old name)"] = outcome(lambda: deserialize(U, {"type": pfx + "_Cat", "a": 2}))
+        def canon(k, v):
+            txt = v[1].replace(pfx + "_", "X_")
+            if k == "schema" and v[0] == "ok":
+                import ast as _ast
+                txt = json.dumps(json.loads(_ast.literal_eval(txt)), sort_keys=True)       # (key order after the renaming)
+            return (v[0], txt)
+        return {k: canon(k, v) for k, v in out.items()}
+    for i, mapping in specs:
+        d, t = f"D{i}", f"T{i}"
+        names = {"Cat": d + "_Cat"}
+        first = observe(d, names)                                     # warm: the union is compiled under the first configuration
+        new = rnd.choice(["Kitty", "Cat2", "cat"])
+        type_name(new)(ns[d + "_Cat"]); type_name(new)(ns[t + "_Cat"])
+        second = observe(d, {"Cat": new}); ref = observe(t, {"Cat": new})
+        count += 1; hist["discriminated-union-histories"] += 1; distinct.add(("discr-history", i, repr(mapping), new))
+        bad = {k: {"warm": second[k], "twin": ref[k]} for k in second if second[k] != ref[k]}
+        if bad:
+            failures.append({"kind": "P", "mode": "discriminator-history", "mapping": mapping, "history": ["observe", f"type_name({new!r})(Cat)", "observe"], "differences": bad, "k_ok": True,
+                             "point": ["CacheAwareDict", "__setitem__"], "why": ["stale-observation-in-a-history-on-a-discriminated-union"]})
+    return failures, count
 
 
 # wiring point -> known finding
